@@ -33,6 +33,12 @@ ASSUMPTIONS = [
 ]
 
 
+def exhaustive(tier):
+    # the answer trees of the small sources are enumerated completely (leaf mass = 1 is checked), but the
+    # exploration at the dynamic switch (~100 scores per class) is deviation-bounded, i.e. capped
+    return False
+
+
 def bounds(tier):
     if tier == "quick":
         return {"sizes": [[1, 1], [2, 1], [1, 2], [2, 2], [1, 0], [0, 2], [3, 1]], "easy": [[0, 0], [1, 0], [0, 2], [1, 2]],
